@@ -101,6 +101,55 @@ def _selftest(ctx, b, bs, opts):
     ctx.extra['selftest_corrupted_prediction_reported'] = True
 
 
+def _tick_builders(bs, limit):
+    """behaviours in which a loop iteration (not the receipt) completes a block: the shapes in which a defect of the
+    posting path shows outside the receive goroutine's recover"""
+    out = []
+    for x in bs:
+        prev = []
+        for s in x['steps']:
+            st = (s.get('chk') or {}).get('st') or []
+            if s.get('op') in ('Tick', 'Probe') and any(v in ('posted', 'posted|req') and (i >= len(prev) or prev[i] != v)
+                                                        for i, v in enumerate(st)):
+                out.append(x)
+                break
+            prev = st
+        if len(out) >= limit:
+            break
+    return out
+
+
+def _live(ctx, b, n):
+    """Binding B: runs of the real protocol on its own tickers, validated by P2PRecv_Trace (silent loop iterations)."""
+    opts = dict(n=n, par=4)
+    r, s = ctx.validate_recording(b, 'P2PRecv_Trace', 'P2PRecv_Trace.cfg', recorder='live', opts=opts, dfs=True,
+                                  selftest=False, timeout=7200)
+    if not r['accepted']:
+        return
+    # anti-vacuity: the same kind of recording with every rebuilt block reported as damaged and every final
+    # "posted" turned into "req" must be rejected
+    tp, _ = ctx.record(b, 'live', opts=dict(n=4, par=4), name='live-selftest.ndjson')
+    lines = [json.loads(x) for x in open(tp) if x.strip()]
+    changed = 0
+    for e in lines:
+        if e.get('ev') == 'Posted' and e.get('ok'):
+            e['ok'] = False
+            changed += 1
+        if e.get('ev') == 'Final':
+            e['st'] = ['req' if x == 'posted' else x for x in e['st']]
+    if not changed:
+        ctx.notes.append('live selftest: nothing rebuilt in the self-test recording')
+        return
+    bad = tp + '.bad'
+    with open(bad, 'w') as f:
+        for e in lines:
+            f.write(json.dumps(e) + '\n')
+    r2 = ctx.tlc_trace('P2PRecv_Trace', 'P2PRecv_Trace.cfg', bad, dfs=True, timeout=7200)
+    if r2['accepted']:
+        raise vlib.Broken('binding self-test failed: a recording with damaged rebuilt blocks was accepted by P2PRecv_Trace')
+    ctx.extra['selftest_corrupted_trace_rejected'] = True
+
+
 def run(ctx):
     q = ctx.tier == 'quick'
     c33 = ctx.prop == 'C33'
@@ -133,6 +182,11 @@ def run(ctx):
         allb = ctx.tlc_genall('P2PRecv_All', 'P2PRecv_All33.cfg' if q else 'P2PRecv_All33t.cfg', timeout=7200, count=False)
         ctx.replay(b, allb, opts=dict(fuzz=2), par=8, timeout=7200)
         ctx.extra['exhaustive_small_config'] = dict(cfg='P2PRecv_All33.cfg' if q else 'P2PRecv_All33t.cfg', behaviours=len(allb))
+        tb = _tick_builders(allb, 200 if q else 2000)
+        if len(tb) < 5:
+            raise vlib.Broken('no exported behaviour completes a block in a loop iteration')
+        ctx.replay(b, tb, opts=dict(noval=1), par=8, timeout=7200, count=False)
+        ctx.replay(b, tb, opts=dict(dual=1), par=8, timeout=7200, count=False)
         n = 150 if q else 1200
         for k, opts in enumerate([dict(fuzz=2), dict(fuzz=2, noval=1), dict(fuzz=2, dual=1)]):
             bs = ctx.tlc_sim('P2PRecv_MC', 'P2PRecv_Gen.cfg', num=n if k == 0 else n // 2, depth=12, seed=ctx.seed * 10 + k)
@@ -147,6 +201,7 @@ def run(ctx):
             ctx.replay(b, sample, opts=dict(noval=1), par=8, timeout=7200, count=False)
             ctx.replay(b, sample, opts=dict(dual=1), par=8, timeout=7200, count=False)
         _selftest(ctx, b, allb, dict(fuzz=2))
+        _live(ctx, b, 8 if q else 60)
     else:
         ctx.rule = ('behaviours = every complete behaviour of P2PRecv_All34: a genuine light block of every layout of '
                     'singles and groups (group at every position), every subset of its transactions initially in the '
@@ -167,6 +222,7 @@ def run(ctx):
             sample = rnd.sample(allb, min(4000, len(allb)))
             ctx.replay(b, sample, opts=dict(noval=1), par=8, timeout=7200, count=False)
         _selftest(ctx, b, allb, {})
+        _live(ctx, b, 12 if q else 120)
     ctx.exhaustive = False  # exhaustive over the abstract behaviours of the small configuration; bytes are sampled
 
 
